@@ -67,6 +67,7 @@ def space_pairs(api, gA, gB, kind):
         return [(api.function_space(gA, "P", 1, **kwA), api.function_space(gB, tk, td, **kwB), lab)
                 for (kwA, tk, td, kwB, lab) in (
                     ({}, "DP", 0, {}, "P1->DP0"),
+                    ({"swapped_normals": [1]}, "DP", 0, {}, "P1swapped->DP0"),
                     ({"segments": [1], "include_boundary_dofs": True}, "P", 1, {"include_boundary_dofs": True},
                      "P1seg->P1"),
                 )] + [(api.function_space(gA, "DP", 1), api.function_space(gB, "DP", 1, segments=[1]), "DP1->DP1seg")]
